@@ -675,6 +675,7 @@ func (c *FnCtx) enterLoop(fr *Frame, h *ssa.BasicBlock, ord int, st *State) *Sta
 	c.triggers = c.triggers[:nf]
 	c.factGuarded = c.factGuarded[:nf]
 	c.factPC = c.factPC[:nf]
+	c.factTag = c.factTag[:nf]
 	if c.specSeen != nil {
 		c.specSeen = savedSeen
 	}
@@ -806,7 +807,12 @@ func (c *FnCtx) enterLoop(fr *Frame, h *ssa.BasicBlock, ord int, st *State) *Sta
 		fr.loopEntry = map[int]*State{}
 	}
 	fr.loopEntry[ord] = st
-	c.loopInvs(fr, h, ord, lc, out, "assume")
+	{
+		saved := c.curTag
+		c.curTag = 1
+		c.loopInvs(fr, h, ord, lc, out, "assume")
+		c.curTag = saved
+	}
 	if lc != nil && lc.Decr != nil {
 		if fr.loopMeasure == nil {
 			fr.loopMeasure = map[*ssa.BasicBlock]*Term{}
@@ -823,6 +829,13 @@ func (c *FnCtx) backEdge(fr *Frame, h *ssa.BasicBlock, st *State, from *ssa.Basi
 	var lc *LoopContract
 	if fr.fc != nil {
 		lc = fr.fc.Loops[ord]
+	}
+	if lc != nil && len(lc.Invs) > 0 && c.noObl == 0 && fr.isTop {
+		// vacuity guard: the path to this back edge should be reachable under the accumulated assumptions
+		c.backCovers = append(c.backCovers, &Obligation{Name: fmt.Sprintf("%s:cover:back loop%d%s", c.top.RelString(c.top.Pkg.Pkg), ord, c.curLatch), Kind: "cover",
+			Func: c.top.RelString(c.top.Pkg.Pkg), Goal: c.eng.ts.Not(st.pc), NFacts: len(c.facts), PC: st.pc, Ctx: c, Src: "loop back edge reachable"})
+		c.backCovers = append(c.backCovers, &Obligation{Name: fmt.Sprintf("%s:cover:back loop%d%s (basic)", c.top.RelString(c.top.Pkg.Pkg), ord, c.curLatch), Kind: "cover", BasicOnly: true,
+			Func: c.top.RelString(c.top.Pkg.Pkg), Goal: c.eng.ts.Not(st.pc), NFacts: len(c.facts), PC: st.pc, Ctx: c, Src: "loop back edge reachable in the model of code and libraries alone"})
 	}
 	c.loopInvs(fr, h, ord, lc, st, "inv-step")
 	if lc != nil && lc.Decr != nil && fr.loopMeasure[h] != nil {
